@@ -32,7 +32,7 @@ BUDGET = {'quick': 100, 'thorough': 1500}
 TIMEOUT = 120
 SHRINK_LISTS = [['fields']]
 EXPECTED_PROBES = ['option', 'rc', 'dict', 'both', 'restart_fields_compared', 'rejected_checked', 'truncated_rc', 'attr_then_save',
-                   'model_field', 'routine_field', 'system_field']
+                   'model_field', 'routine_field', 'system_field', 'second_system_same_file']
 RULE = ('plan = seeded set of real config fields with seeded values and delivery channels (+ negative and truncation variants); '
         'non-trivial = at least one non-default value delivered; distinct = (sorted fields, channels, variant)')
 ASSUMPTIONS = [
@@ -277,6 +277,19 @@ def execute(plan):
                                        what='differs', after_attr=(variant == 'attr_then_save' and key in supplied)))
                             break
                     probes['restart_fields_compared'] = n
+                # ---- a second System built in the same process from the same file alone: nothing of the first one's options in it
+                if variant == 'positive' and rc_path and not v and any(f['channel'] in ('option', 'both', 'dict') for f in plan['fields']):
+                    s3 = andes.System(config_path=rc_path, no_output=True, autogen_stale=False)
+                    probes['second_system_same_file'] = 1
+                    for f in plan['fields']:
+                        key = (f['sec'], f['field'])
+                        exp = f['value'] if f['channel'] == 'rc' else (f['rc_value'] if f['channel'] == 'both' else defaults.get(key))
+                        act = getattr(cfg_of(s3, f['sec']), f['field'], '__missing__')
+                        if not same_value(act, exp):
+                            v.append(V('effective', 'a second System built from the same rc file alone has [%s].%s = %r; the file / default says '
+                                       '%r (the first System was given %r through %s)' % (f['sec'], f['field'], act, exp, f['value'], f['channel']),
+                                       what='leaked_from_earlier_system', channel=f['channel']))
+                            break
         res['probes'] = probes
         res['faults'] = {}
         if probes.get('truncated_rc'):
